@@ -14,19 +14,19 @@ CLAIMED = {}
 def claim(i, technique, text, ref):
     CLAIMED[i] = (technique, text, ref)
 
-claim("C10", "SSA data-flow discovery of compare-and-set sites + result-tuple folding on the mismatch edge; must-pass-through Commit on wrapper returns; edge-cut guard of the composite CA write; call-site use of the boolean",
-      "Decides, for every compare-and-set function discovered by data flow (19 today) and every write-transaction wrapper (75), the structural clauses C10.1-C10.5 of DESIGN section 3: mismatch and applied results are distinguishable, true is reported only after a successful Commit and false only without one, the boolean is consumed at every call site, the composite CA operation short-circuits, the leader turns a false reply into an error. It does not decide that the comparison uses the current index for every pre-state nor atomicity across the two transactions of the composite CA operation.",
+claim("C10", "SSA data-flow discovery of compare-and-set sites + result-tuple folding on the mismatch edge; must-pass-through Commit on wrapper returns; edge-cut guard of the composite CA write; call-site use of the boolean; comparison-not-optional edge-cut rule",
+      "Decides, for every compare-and-set function discovered by data flow (19 today) and every write-transaction wrapper (75), the structural clauses C10.1-C10.5 of DESIGN section 3: mismatch and applied results are distinguishable, true is reported only after a successful Commit and false only without one, the boolean is consumed at every call site, the composite CA operation short-circuits, the leader turns a false reply into an error. It does not decide that the comparison uses the current index for every pre-state nor atomicity across the two transactions of the composite CA operation. C10.7: with a CAS comparison's match edges removed no write is reachable (except row-absent / expected-zero / boolean mode-flag edges).",
       "DESIGN.md section 3 C10")
 
-claim("C06", "SSA must-flow (index-bump must-pass-through with callee summaries, flag-flow and bulk-delete edge refinement) over every memdb write site; backward slice of every exported reader's index; path rules on the blocking-query loop; loop-accumulator rule on the service-exists argument of the per-service index lookup",
-      "Decides C06.X (the extinction index is chosen only when an accumulator updated on every iteration over the service's instances is empty), C06.W (each of the 83 non-index memdb write sites of package state is followed on every feasible non-failing path, here or in every caller, by a bump of an index key its readers consult), C06.R2 (no exported reader derives its index only from the rows it iterates), C06.Q (blocking-query loop: meta after every run, abandon channel watched, exit only on index progress/timeout/error; reported index never 0). Does not decide per-entity precision of the bumped key nor wake-up under concurrency.",
+claim("C06", "SSA must-flow (index-bump must-pass-through with callee summaries, flag-flow and bulk-delete edge refinement) over every memdb write site; backward slice of every exported reader's index; path rules on the blocking-query loop; loop-accumulator rule on the service-exists argument of the per-service index lookup; reader/writer table-coverage agreement (may-sets of tables read vs constants reaching index keys, with verified per-entity key families)",
+      "Decides C06.X (the extinction index is chosen only when an accumulator updated on every iteration over the service's instances is empty), C06.W (each of the 83 non-index memdb write sites of package state is followed on every feasible non-failing path, here or in every caller, by a bump of an index key its readers consult), C06.R2 (no exported reader derives its index only from the rows it iterates), C06.Q (blocking-query loop: meta after every run, abandon channel watched, exit only on index progress/timeout/error; reported index never 0). Does not decide per-entity precision of the bumped key nor wake-up under concurrency. Also decides C06.R (for each of 96 exported readers and each table it reads through any helper, an index key naming that table — or a per-entity key every writer of the table bumps — is consulted; found and repaired four more upstream defects, two recorded) and C06.Q.raise (the loop raises its wait threshold on not-found only after a not-found pass).",
       "DESIGN.md section 3 C06")
 claim("C03", "SSA value provenance of the fields of the entry that reaches the kvs insert (CreateIndex/LockIndex/Session) under branch facts; must-not-pass-through on the equal branch; tombstone must-pass-through; prefix-index agreement",
       "Decides the mechanism clauses C03.1-C03.7 of the KV store (index funnel, no-op set writes nothing and compares the object it stores, create index inherited, lock counter and holder provenance, tombstone on delete, conditional verbs' boolean consumed, list/tree-delete use one prefix index). Equivalence with a sequential reference map over histories is not decided. One known finding (KF2).",
       "DESIGN.md section 3 C03")
 
-claim("C04", "call-chain funnel over resolved callers to an effect-defined invalidator (must-flow of the three session-indexed reads + downstream releasing writes); cascade must-flow with peer/critical edge refinement; edge-cut guards on lock acquire/release; who-may-call on the TTL code",
-      "Decides C04.1 (every way to remove a sessions row passes through a function that releases/deletes held keys and removes check links and session-bound queries), C04.2 (node delete, check delete, critical check each feed linked sessions to the invalidator on every successful local path), C04.3 (acquire only below session-exists and absent/unheld/same-holder edges; release only below holder==requester), C04.4 (TTL expiry goes through raftApply). Does not decide the reachable-state invariant over histories.",
+claim("C04", "call-chain funnel over resolved callers to an effect-defined invalidator (must-flow of the three session-indexed reads + downstream releasing writes); cascade must-flow with peer/critical edge refinement; edge-cut guards on lock acquire/release; who-may-call on the TTL code; loop-accumulator rule on the invalidator's collectors",
+      "Decides C04.1 (every way to remove a sessions row passes through a function that releases/deletes held keys and removes check links and session-bound queries), C04.2 (node delete, check delete, critical check each feed linked sessions to the invalidator on every successful local path), C04.3 (acquire only below session-exists and absent/unheld/same-holder edges; release only below holder==requester), C04.4 (TTL expiry goes through raftApply). Does not decide the reachable-state invariant over histories. C04.5: the invalidator collects every row its by-session lookups yield.",
       "DESIGN.md section 3 C04")
 
 claim("C05", "edge-cut guard of Commit by the dispatch result; who-may-call closure over the dispatch loop (no transaction lifecycle calls, receivers are parameters, no escaping effects outside tx.Defer); must-flow ordering inside txn.Commit; path-sensitive nil-flow from the not-applied edge of each conditional verb; registry agreement of accepted vs handled verbs",
@@ -37,24 +37,24 @@ claim("C01", "registry agreement (registered handlers vs raftApply producers); V
       "Decides C01.1-C01.5: dispatch is total and single-valued; no ambient source (clock, env, network, randomness) reachable from apply feeds anything but metrics/logs/leader-local timers, and the leader-local lock-delay table is never read from apply; write transactions open at the handler's log index; no reachable map range leaks iteration order into state or results (7 reviewed exceptions); no goroutine/channel operation in apply. One known finding (F7: netutil.IsDualStack reached from virtual-IP assignment). Equality of two stores over histories is not decided.",
       "DESIGN.md section 3 C01")
 
-claim("C02", "registry agreement between persisters (record-kind byte + encoded type) and restorers (decoded type); schema-table coverage by Snapshot readers / Restore writers; stream-order analysis of persistCE against index-row writers (max-merge only after the index records); must-flow ordering in FSM.Restore; sibling agreement between the online delete path and the restore rebuild of the secret-UUID table",
-      "Decides C02.1-C02.6: every persisted record kind has a restorer decoding the same type (27 kinds) and vice versa; each of the 36 schema tables is persisted+restored, derived-and-rebuilt, or listed; restorers that run after the index records never lower an index row; FSM.Restore swaps only after commit, under the state lock, refreshes subscriptions and abandons the old store; restore and online registration share ensureRegistrationTxn; the secret-UUID table is rebuilt completely. Equality of restored content with persisted content needs the round trip and is not decided.",
+claim("C02", "registry agreement between persisters (record-kind byte + encoded type) and restorers (decoded type); schema-table coverage by Snapshot readers / Restore writers; stream-order analysis of persistCE against index-row writers (max-merge only after the index records); must-flow ordering in FSM.Restore; sibling agreement between the online delete path and the restore rebuild of the secret-UUID table; restore-order dependences compared with a reviewed reference table",
+      "Decides C02.1-C02.6: every persisted record kind has a restorer decoding the same type (27 kinds) and vice versa; each of the 36 schema tables is persisted+restored, derived-and-rebuilt, or listed; restorers that run after the index records never lower an index row; FSM.Restore swaps only after commit, under the state lock, refreshes subscriptions and abandons the old store; restore and online registration share ensureRegistrationTxn; the secret-UUID table is rebuilt completely. Equality of restored content with persisted content needs the round trip and is not decided. C02.7: for every restorer that re-runs online logic reading a table another record kind restores, the order of the two in the snapshot stream equals the reviewed one (8 pairs).",
       "DESIGN.md section 3 C02")
 
-claim("C07", "dominance of catalog inserts by parent lookups (edge cut); cascade must-flow + fed-consumer provenance on the node/service row deleters; must-flow of derived-table maintainers on the registration path; who-may-call for the usage writer; paired-effect must-flow in the virtual-IP allocator; provenance of the read-modify-written mesh-topology row",
-      "Decides C07.1-C07.6: services/checks rows are inserted only below successful parent lookups; node and service deletes look up and delete their dependants and reach the derived-table cleanups; the services insert path always maintains kind-service-names and (for connect) the topology; usage is written only from txn.Commit; free-list/counter/assignment writes of the VIP allocator are paired; the topology row rewritten derives from the row read. Equality of derived views with a recomputation and VIP uniqueness over histories are not decided.",
+claim("C07", "dominance of catalog inserts by parent lookups (edge cut); cascade must-flow + fed-consumer provenance on the node/service row deleters; must-flow of derived-table maintainers on the registration path; who-may-call for the usage writer; paired-effect must-flow in the virtual-IP allocator; provenance of the read-modify-written mesh-topology row; must-pass-through on the deregistration side",
+      "Decides C07.1-C07.6: services/checks rows are inserted only below successful parent lookups; node and service deletes look up and delete their dependants and reach the derived-table cleanups; the services insert path always maintains kind-service-names and (for connect) the topology; usage is written only from txn.Commit; free-list/counter/assignment writes of the VIP allocator are paired; the topology row rewritten derives from the row read. Equality of derived views with a recomputation and VIP uniqueness over histories are not decided. C07.3.kind-cleanup: every local connect deregistration looks up remaining connect instances and removes the connect-enabled kind name when none remain.",
       "DESIGN.md section 3 C07")
 
 claim("C08", "finite-domain abstract interpretation of the two precedence functions over their whole input domain (25 + 15 cells); alias/mutation analysis of the merge-context maps; sibling agreement of authorizer methods (access-level constant vs method name, rule tree per resource, delegation targets); data-flow of the cache keys",
       "Decides C08.1 (takesPrecedenceOver and enforce equal the documented order/table on every cell of their finite domain), C08.2 (no merge-map entry that aliases an input rule is written through — the F1 defect class, also for key/node/... rules), C08.3 (35 policyAuthorizer methods ask for the level their name says, 15 resources use one rule tree each, 71 delegating methods delegate to the like-named method), C08.4 (authorizer cache key folds ID and ModifyIndex of the compiled receiver). Longest-prefix selection in the radix tree is library behaviour and is not decided.",
       "DESIGN.md section 3 C08")
 
-claim("C09", "registry agreement between filter call-site subject types and the filter's type switch; per-endpoint must-contain-filter check over reply types; frozen per-element-type table of authorizer questions with provenance of the name argument; structural splice/flag rules; edge-cut dominance of identity use by the IsExpired false edge",
-      "Decides C09.1-C09.6: every subject handed to the ACL filter has a case (43 call sites); every RPC with a filterable reply filters it (36 methods, 3 listed up-front-authorised ones); each of 23 per-type filters asks the questions frozen for its element type on a name field of the element (F10 class); 11 in-place splices step the index back and set the removed flag; the filtered flag is never overwritten in a loop (F4 class); identities are used only below the not-expired edge; anonymous masking is in place. Does not decide that nothing readable is dropped for nested structures.",
+claim("C09", "registry agreement between filter call-site subject types and the filter's type switch; per-endpoint must-contain-filter check over reply types; frozen per-element-type table of authorizer questions with provenance of the name argument; structural splice/flag rules; edge-cut dominance of identity use by the IsExpired false edge; write-back rule for filters applied to local copies",
+      "Decides C09.1-C09.6: every subject handed to the ACL filter has a case (43 call sites); every RPC with a filterable reply filters it (36 methods, 3 listed up-front-authorised ones); each of 23 per-type filters asks the questions frozen for its element type on a name field of the element (F10 class); 11 in-place splices step the index back and set the removed flag; the filtered flag is never overwritten in a loop (F4 class); identities are used only below the not-expired edge; anonymous masking is in place. Does not decide that nothing readable is dropped for nested structures. C09.4.copy: a filter applied to a local copy of a slice stores the copy back.",
       "DESIGN.md section 3 C09")
 
-claim("C13", "finite-domain abstract interpretation of both precedence computations (16 + 4 cells, with an abstract heap for the stored field) and comparison of the two tables; field-identity check of the sorter's comparisons; must-pass-through of the precedence sort before an assembled list is returned (escalated to callers); loop-exit rule in the decision; dominance rule on the precedence recomputation",
-      "Decides C13.1 (both precedence functions are strictly increasing destination-first, source-second over their whole domain and agree), C13.2 (the sorter compares precedence descending and one field per tie-break), C13.3 (7 list-assembling functions: sorted here or by every caller), C13.4 (first match decides), C13.5 (precedence recomputed unconditionally on normalisation and on legacy writes). Wildcard expansion of IntentionMatch for all pairs is not decided.",
+claim("C13", "finite-domain abstract interpretation of both precedence computations (16 + 4 cells, with an abstract heap for the stored field) and comparison of the two tables; field-identity check of the sorter's comparisons; must-pass-through of the precedence sort before an assembled list is returned (escalated to callers); loop-exit rule in the decision; dominance rule on the precedence recomputation; loop-exit rule on source collectors",
+      "Decides C13.1 (both precedence functions are strictly increasing destination-first, source-second over their whole domain and agree), C13.2 (the sorter compares precedence descending and one field per tie-break), C13.3 (7 list-assembling functions: sorted here or by every caller), C13.4 (first match decides), C13.5 (precedence recomputed unconditionally on normalisation and on legacy writes). Wildcard expansion of IntentionMatch for all pairs is not decided. C13.6: loops collecting intentions from an entry's Sources scan all of them.",
       "DESIGN.md section 3 C13")
 
 claim("C11", "lockset analysis (must-held locks per instruction, caller-holds escalation) over the publisher, subscription table and materializer; lock-order rule; edge-cut dominance and must-pass-through rules on the event generators, the subscription reader, the subscribe endpoint and the client handlers; registry agreement between emitted topics and registered snapshot handlers; value provenance of indexes in splice and view update",
@@ -73,12 +73,12 @@ claim("C18", "lockset (must-flow of eventLock over read/write/commit/publish), e
       "Decides C18.1 (both CAS writers hold eventLock from the read to the publication, publish after Commit, and write only below version-equal and UID-equal edges; create only with empty version), C18.2 (only they and the restoration handle write the table), C18.3 (no nil error below an err != nil edge — four such sites were repaired), C18.4 (WatchList's topic has a registered snapshot handler that lists under a read transaction; restore refreshes the topic). Linearizability under real schedules is not decided.",
       "DESIGN.md section 3 C18")
 
-claim("C16", "edge-cut guard of every bookkeeping effect by the accepted edges of the catalog RPC result (success, ACL refusal, unknown-service on deletes); must-push rule on entries marked Deleted; provenance of in-sync assignments in the diff; lockset at push call sites; constant-result rule on the syncer's failure edge",
-      "Decides C16.1 (5 push functions: in-sync flags set / entries dropped only below success or ACL-refusal edges, other errors returned), C16.2 (local removal marks Deleted and keeps the entry; every Deleted entry is pushed at every sync), C16.3 (the diff only clears flags or takes them from IsSame), C16.4 (push functions run under the state lock), C16.5 (a failed full sync goes to the retry state). Convergence over fault sequences is not decided.",
+claim("C16", "edge-cut guard of every bookkeeping effect by the accepted edges of the catalog RPC result (success, ACL refusal, unknown-service on deletes); must-push rule on entries marked Deleted; provenance of in-sync assignments in the diff; lockset at push call sites; constant-result rule on the syncer's failure edge; provenance of the entries flagged in sync",
+      "Decides C16.1 (5 push functions: in-sync flags set / entries dropped only below success or ACL-refusal edges, other errors returned), C16.2 (local removal marks Deleted and keeps the entry; every Deleted entry is pushed at every sync), C16.3 (the diff only clears flags or takes them from IsSame), C16.4 (push functions run under the state lock), C16.5 (a failed full sync goes to the retry state). Convergence over fault sequences is not decided. C16.6: InSync=true only on the pushed entry or on elements of the list that was sent, never on entries selected by scanning the table.",
       "DESIGN.md section 3 C16")
 
-claim("C19", "value provenance of every append into the deletions / upserts lists of the diff functions; loop-structure rule for the two tails; cursor-discipline edge-cut rule on the sorted merge walks; edge-cut guard of the apply steps by non-empty differences; path-sensitive nil-flow from each apply step's error to the returned index",
-      "Decides C19.1 (4 diff functions: deletions come from the local input, upserts from the remote), C19.3 (3 merge walks drain both tails), C19.6 (a cursor only advances past a matched, scheduled or own-empty element — the seeded misalignment class), C19.4 (6 apply steps only below a non-empty difference), C19.5 (a failed apply step never lets the remote index advance). Sort key = merge key (C19.2) is not built; equality of the resulting sets for all inputs is not decided.",
+claim("C19", "value provenance of every append into the deletions / upserts lists of the diff functions; loop-structure rule for the two tails; cursor-discipline edge-cut rule on the sorted merge walks; edge-cut guard of the apply steps by non-empty differences; path-sensitive nil-flow from each apply step's error to the returned index; apply-order rule",
+      "Decides C19.1 (4 diff functions: deletions come from the local input, upserts from the remote), C19.3 (3 merge walks drain both tails), C19.6 (a cursor only advances past a matched, scheduled or own-empty element — the seeded misalignment class), C19.4 (6 apply steps only below a non-empty difference), C19.5 (a failed apply step never lets the remote index advance). Sort key = merge key (C19.2) is not built; equality of the resulting sets for all inputs is not decided. C19.2: within a round deletions are applied before upserts (3 replicators).",
       "DESIGN.md section 3 C19")
 
 claim("C17", "value provenance of the PeerName field of every catalog request issued by the peer-stream handlers; edge-cut guards (consumer match on the exporting side, node-keyed membership tests before a service deregistration, not-in-new-list edge before the prune)",
